@@ -15,6 +15,7 @@ import TdVerif.Lemmas.C16ShapeOps
 import TdVerif.Lemmas.C16Permute
 import TdVerif.Lemmas.C16Reshape
 import TdVerif.Lemmas.C16Nested
+import TdVerif.Lemmas.C16Update
 
 namespace TdVerif.Props.C16
 open TdVerif.C16 TdVerif.C16.NT
@@ -389,6 +390,29 @@ theorem cat_shared [DecidableEq O] (o : O) (s : Shape) (rest : List (NT O)) (d :
 
 -- the abstract concatenation picks the item by the cumulated sizes
 example : catGetD 1 [((fun c => some (c, "A")), 2), ((fun c => some (c, "B")), 3)] [0, 3, 1] = some ([0, 1, 1], "B") := by rfl
+
+/-! ### in-place update of an entry -/
+
+/-- the in-place update of a non-tensor entry (`NonTensorData._update` / `NonTensorStack._update`, reached by
+`set(key, value, inplace=True)`, `copy_`, entry-level `update_`): whenever it succeeds, for entries of one shape without a
+zero-size dim and whatever their representations, the updated entry is well formed, keeps the shape (and the STRUCTURE: the
+recursion only rewrites payloads of the destination's own nodes) and shows at every position the object of the source. -/
+theorem update_commutes (dest src u : NT O) (hw : wf dest = true) (hws : wf src = true) (hs : shape src = shape dest)
+    (hp : ∀ n ∈ shape dest, n ≠ 0) (h : updateNT dest src = .ok u) :
+    wf u = true ∧ shape u = shape dest ∧ ∀ c, c.length = (shape dest).length → getAt u c = getAt src c :=
+  updateNT_spec dest src u hw hws hs hp h
+
+/-- … and it fails exactly where the structure cannot hold the source: a shared node of the destination (one payload for a
+whole sub-batch) facing a stacked part of the source (`ValueError: Cannot update a NonTensorData object with a
+NonTensorStack`), here at the top level -/
+theorem update_shared_rejects_stack (o : O) (s : Shape) (ms : List (NT O)) (d : Nat) :
+    updateNT (.shared o s) (.stack ms d) = .error .shape := by
+  simp [updateNT]
+
+example : updateNT (.stack [.shared "a" [], .shared "b" []] 0 : NT String) (.shared "q" [2])
+    = .ok (.stack [.shared "q" [], .shared "q" []] 0) := by rfl
+example : updateNT (.stack [.shared "p" [2], .shared "p" [2]] 0 : NT String)
+    (.stack [.stack [.shared "a" [], .shared "b" []] 0, .shared "c" [2]] 0) = .error .shape := by rfl
 
 -- `unperm` really is the inverse placement: `unperm [2,0,1] [a,b,c]` puts `a` at dim 2, `b` at dim 0, `c` at dim 1
 example : unperm [2, 0, 1] [7, 8, 9] = [8, 9, 7] := by decide
